@@ -150,6 +150,8 @@ impl Runner {
         self.pending.write_all(line.as_bytes()).unwrap();
         self.pending.write_all(b"\n").unwrap();
         self.pending.set_len(line.len() as u64 + 1).unwrap();
+        // completed records reach the file before the next case can abort or hang the process
+        self.out.flush().unwrap();
         *self.watch.1.lock().unwrap() = Instant::now();
         self.watch.0.store(idx, Ordering::SeqCst);
         let res = catch_unwind(AssertUnwindSafe(f));
